@@ -244,13 +244,23 @@ func failurePropagatesExcept(call *ssa.Call, tolerated map[[2]int]bool) (bool, s
 		if !ok {
 			continue
 		}
-		if ssau.IsNilConst(ssau.ResultValue(ret, ei)) {
+		rv := ssau.ResultValue(ret, ei)
+		if ssau.IsNilConst(rv) {
 			// the block of the call itself is only "after failure" if it is
 			// re-entered; a nil return in another block is a swallowed error
 			if b == call.Block() {
 				continue
 			}
 			return false, "a `return nil` is reachable after the call failed"
+		}
+		// the error of ANOTHER call made after the failure (err = f.Close())
+		// replaces the failure: it may well be nil
+		if b != call.Block() && rv != ev {
+			if oc := otherCallError(rv); oc != nil && oc != call && !errorConstructor(oc, 0) {
+				if s2, _ := nilTests(rv); !guardedNonNil(b, s2) {
+					return false, "after the call failed the function returns the error of " + ssau.CallName(oc) + " instead, which is nil when that call succeeds"
+				}
+			}
 		}
 	}
 	return true, ""
@@ -557,4 +567,69 @@ func outputRoutines(c *Ctx, run *ssa.Function) []listRoutine {
 		}
 	})
 	return out
+}
+
+// otherCallError: v is the error result of a call (directly or as the last
+// component of its tuple).
+func otherCallError(v ssa.Value) *ssa.Call {
+	switch x := v.(type) {
+	case *ssa.Call:
+		if types.Identical(x.Type(), types.Universe.Lookup("error").Type()) {
+			return x
+		}
+	case *ssa.Extract:
+		if call, ok := x.Tuple.(*ssa.Call); ok && types.Identical(x.Type(), types.Universe.Lookup("error").Type()) {
+			return call
+		}
+	}
+	return nil
+}
+
+// errorConstructor: the call always yields a non-nil error (fmt.Errorf,
+// errors.New, or a function of the repository whose every return does).
+func errorConstructor(call *ssa.Call, d int) bool {
+	n := ssau.CallName(call)
+	if strings.HasPrefix(n, "fmt.Errorf") || n == "errors.New" {
+		return true
+	}
+	g := call.Common().StaticCallee()
+	if g == nil || len(g.Blocks) == 0 || d > 3 {
+		return false
+	}
+	ei := errorIndex(g)
+	if ei < 0 {
+		return false
+	}
+	rets := ssau.ReturnsOf(g)
+	for _, ret := range rets {
+		switch x := ssau.ResultValue(ret, ei).(type) {
+		case *ssa.MakeInterface:
+			if _, isPtr := x.X.Type().Underlying().(*types.Pointer); isPtr {
+				if _, isAlloc := x.X.(*ssa.Alloc); !isAlloc {
+					return false
+				}
+			}
+		case *ssa.Call:
+			if !errorConstructor(x, d+1) {
+				return false
+			}
+		default:
+			return false
+		}
+	}
+	return len(rets) > 0
+}
+
+// guardedNonNil: block b is reachable only over edges on which the tested
+// value is non-nil (succ holds the nil edges to avoid).
+func guardedNonNil(b *ssa.BasicBlock, succ map[[2]int]bool) bool {
+	if len(succ) == 0 {
+		return false
+	}
+	// fail edges are the complements of the success edges
+	fail := map[[2]int]bool{}
+	for e := range succ {
+		fail[[2]int{e[0], 1 - e[1]}] = true
+	}
+	return !ssau.ReachableAvoidingEdges(b.Parent(), b, fail)
 }
